@@ -17,10 +17,12 @@ def pre_build(ctx):
     import gen_sfista
     ctx.cov["regulariser_calls_in_repo"] = gen_hcalls.regenerate(ctx)
     gen_sfista.regenerate(ctx)
+    import gen_mainccalls
+    gen_mainccalls.regenerate(ctx)
 
 
 THEOREMS = ["Dfols.C06.C06_src_h_calls", "Dfols.C06.C06_box_frame", "Dfols.C06.C06_old_wrong_box", "Dfols.C06.C06_args_passthrough",
-            "Dfols.C06.C06_sfista_parameters", "Dfols.C06.C06_sfista_returns_bound_names"]
+            "Dfols.C06.C06_sfista_parameters", "Dfols.C06.C06_sfista_returns_bound_names", "Dfols.C06.C06_src_restart_keeps_regulariser"]
 TRUSTED_EXTRA = [
     "PARTIAL: convergence to F* within 1e-3(1+F*) and the success flag are NOT proved (outer iteration + S-FISTA with rounding): end-to-end search only",
     "oracles: FISTA with the exact prox of lambda*|x|_1 + box (20000 iterations); L-BFGS-B on the 1e-14-smoothed L2-norm regulariser",
